@@ -51,6 +51,8 @@ def std_handler_oracle(line, case):
 
 
 def macro_oracle(line, case):
+    if line.startswith('unavailable'):
+        return None    # the harness was built without the macro crate's sources (see harness/build.sh): no answer to judge
     if is_crash(line) or line.startswith('bad-op'):
         return None if line.startswith('bad-op') else 'crash in the macro code'
     decls = case.meta['decls']
